@@ -292,6 +292,26 @@ def structure_doc(name, n):
                 out.append("variants = %s" % (child + "," + child if name.endswith("-dup") else child))
             uid += "-c"
         return "\n".join(out) + "\n"
+    if name == "legacy-treeinfo-sections-shared-by-id":
+        # pre-productmd file: sections are found by variant ID, every level's two sections list both ids of the next level
+        out = ["[general]", "family = Spacewalk", "version = 2.1", "name = Spacewalk-2.1", "arch = x86_64", "timestamp = 1", "variant = a0"]
+        for l in range(n):
+            nxt = "variants = a%d,b%d" % (l + 1, l + 1) if l < n - 1 else None
+            for x in ("ab" if l else "a"):
+                out += ["[variant-%s%d]" % (x, l), "id = %s%d" % (x, l), "name = n", "type = variant"]
+                if nxt:
+                    out.append(nxt)
+        return "\n".join(out) + "\n"
+    if name == "legacy-treeinfo-addons-shared-by-id":
+        out = ["[general]", "family = Spacewalk", "version = 2.1", "name = Spacewalk-2.1", "arch = x86_64", "timestamp = 1", "variant = a0",
+               "addons = a1,b1"]
+        for l in range(1, n):
+            nxt = "addons = a%d,b%d" % (l + 1, l + 1) if l < n - 1 else None
+            for x in "ab":
+                out += ["[addon-%s%d]" % (x, l), "id = %s%d" % (x, l), "name = n", "type = variant"]
+                if nxt:
+                    out.append(nxt)
+        return "\n".join(out) + "\n"
     if name == "images-same-image-repeated":
         img = {"path": "a.iso", "mtime": 1, "size": 1, "volume_id": None, "type": "dvd", "format": "iso", "arch": "x86_64",
                "disc_number": 1, "disc_count": 1, "checksums": {"md5": "x"}, "implant_md5": None, "bootable": False, "subvariant": "S"}
@@ -636,7 +656,10 @@ def do_measure(spec, out):
     base_cap = cap
     for fam in spec["families"]:
         gc.collect()
-        cap = base_cap * 10 if fam.get("structure") else base_cap
+        # structural families: unit steps (cost doubling per level is only 'degree 6' per step of one level on a document
+        # that grows linearly) and a higher measurement cap - their documents are not 'short' anyway
+        cap = base_cap * 40 if fam.get("structure") else base_cap
+        sizes = list(range(4, 41)) if fam.get("structure") else SIZES
         if time.time() > t_end:
             results.append({"id": fam["id"], "verdict": "unmeasured", "points": []})
             continue
@@ -645,7 +668,7 @@ def do_measure(spec, out):
         fn(family_input(fam, 3))
         points = []
         verdict, detail = "ok", {}
-        for n in SIZES:
+        for n in sizes:
             s = family_input(fam, n)
             if len(points) >= 2 and points[-1][1] and points[-2][1] and points[-1][1] > NOISE_FLOOR:
                 # extrapolate; skip sizes that would blow the measurement cap (the verdict is formed by then)
@@ -663,7 +686,7 @@ def do_measure(spec, out):
                 # spike (allocator / cache effects) can never form a verdict
                 k = max(0, len(points) - 3)
                 for j in range(k, len(points)):
-                    sj = family_input(fam, SIZES[j])
+                    sj = family_input(fam, sizes[j])
                     c2 = counter.measure(fn, sj)
                     if c2 is not None and (points[j][1] is None or c2 < points[j][1]):
                         points[j] = (points[j][0], c2)
